@@ -108,6 +108,8 @@ static std::vector<Node> unknown_values() {
     { Node m = mk_map({mk_tstr("k"), mk_uint(2)}); m.indef = true; v.push_back(m); }
     { Node s; s.major = 3; s.indef = true; s.ai = 31; s.kids = {mk_tstr("ab"), mk_tstr("c")}; s.bytes = "abc"; v.push_back(s); }
     { Node d = mk_uint(0); for (int i = 0; i < 6; i++) d = (i & 1) ? mk_map({mk_uint(i), d}) : mk_array({d}); v.push_back(d); }
+    // deep nests (a skipping decoder's work stack grows at 8 / 16 / 32 / 64 entries): definite arrays, definite maps, alternating definite / indefinite
+    for (int depth : {9, 17, 33, 70}) { Node a = mk_uint(1), m = mk_uint(1), x = mk_uint(1); for (int i = 0; i < depth; i++) { a = mk_array({a, mk_uint(i)}); m = mk_map({mk_uint(i), m}); Node y = mk_array({x}); y.indef = i & 1; x = y; } v.push_back(a); v.push_back(m); v.push_back(x); }
     return v;
 }
 
